@@ -454,6 +454,16 @@ def _build_shape(name):
              "class Customer(Structure):\n    name: str\n    visits: int = 0\n"
              "    address: Address = Address(city='Paris', zip_code='75001')\n", ns)  # pylint: disable=exec-used
         return Shape(name, ns["Customer"])
+    if name == "fast_anyof":
+        # <field>.serialize(value), the field-level API (AnyOf.serialize tries the options - and renames them - since fix
+        # ab026bd); one option object shared by the fields a and b
+        opt = _nn()
+
+        class Fa(Structure):
+            a = AnyOf[opt, String]
+            b = AnyOf[opt, String]
+            _required = []
+        return Shape(name, Fa, racy=True)
     if name == "unique_field":
         # the opt-in uniqueness feature (TypedPyDefaults.uniqueness_features_enabled): a registry on the shared Field object
         class Person(Structure):
@@ -745,6 +755,8 @@ def gen_value(rng, sname, field, bad=0.2):
         return {"d": {"code": "C" + str(_BASE[0]), "digits": _int(rng, 0.0)}} if field in ("currency", "fallback") else _int(rng, 0.0)
     if sname == "shared_default":
         return {"name": "n" + str(_BASE[0]), "visits": _int(rng, 0.0)}[field]
+    if sname == "fast_anyof":
+        return rng.choice([_int(rng, 0.0), "s" + str(_BASE[0])])
     if sname == "unique_field":
         return "id%d" % rng.randint(0, 2) if field == "ssid" else _int(rng, 0.0)
     if sname == "warm_ser":
@@ -884,6 +896,9 @@ def build_ops(case, sh=None):
                 setattr(inst, f, _copy(v))
                 return getattr(inst, f)
             ops.append(do)
+        elif op == "fieldser":
+            fld, v = cls.__dict__[th["field"]], mk(th["value"])
+            ops.append(lambda fld=fld, v=v: {"ser": fld.serialize(_copy(v))})
         elif op == "serialize":
             kw = mk_kw(cls, th["kw"])
             for f in case.get("share", []):      # every thread's instance refers to ONE nested instance
@@ -1664,7 +1679,7 @@ def correspondence(case, impl, model):
 
 
 def thread_fields(th):
-    return {th["field"]} if th["op"] == "setattr" else set(th["kw"])
+    return {th["field"]} if th["op"] in ("setattr", "fieldser") else set(th["kw"])
 
 
 def case_racy(case):
@@ -2089,6 +2104,14 @@ def gen_cases(rng, tier, scale=1.0):
         cases.append({"stream": "E", "shape": "warm_ser", "threads": ths, "sseed": rng.randrange(1 << 30), "max_pre": 1,
                       "cap": 400, "yield": "serlines",
                       "history": [{"op": rng.choice(["construct", "deserialize"]), "kw": dict(hist, n=0)}]})
+    # <field>.serialize(value) against assignment on a class whose AnyOf fields share an option
+    for k in range(1 if quick else 3):
+        _BASE[0] = 0
+        t0 = {"op": "setattr", "field": rng.choice("ab"), "value": _int(rng, 0.0)}
+        _BASE[0] = 1
+        t1 = {"op": "fieldser", "field": "b" if t0["field"] == "a" else "a", "value": gen_value(rng, "fast_anyof", "a")}
+        cases.append({"stream": "E", "shape": "fast_anyof", "threads": [t0, t1], "sseed": rng.randrange(1 << 30), "max_pre": 1 if quick else 2,
+                      "cap": 200, "yield": "sitelines"})
     # is_unique fields with the uniqueness feature switched on: EQUAL (and different) values in the threads; every line of
     # the field implementations and of the registry functions is a yield point (independent of the table); the result
     # VECTOR must be that of one sequential order
